@@ -48,6 +48,8 @@ CMDS = [
     "NOOP", "FOO bar", "", "pwd", "PwD", "Pwd  ", "MKD kelvin",
     # pathlib keeps a root of exactly two slashes: arguments spelled that way
     "CWD //d", "MLST //f.txt", "MKD //d/two", "DELE //d/g.txt", "CWD ///d", "RNFR //f.txt",
+    # white space between the last character and CRLF is not part of the command (`rstrip()`)
+    "TYPE I ", "REST 3 ", "CWD d \t", "PWD\t", "QUIT\t", "PASS secret ", "MLST f.txt\x0c", "EPSV ", "USER bob ",
 ]
 PAYLOAD = b"PAYLOAD-xyz"
 
@@ -413,8 +415,48 @@ def limits_family(ctx):
     return res
 
 
+WS_BASES = [
+    (["USER bob"], "TYPE I"), (["USER bob"], "REST 3"), (["USER bob"], "CWD d"), (["USER bob"], "PWD"), (["USER bob"], "QUIT"), ([], "QUIT"),
+    (["USER alice"], "PASS secret"), (["USER bob"], "MLST f.txt"), (["USER bob"], "EPSV"), ([], "USER bob"), (["USER bob"], "NOOP"),
+    (["USER bob"], "MKD newd"), (["USER bob"], "RNFR f.txt"), (["USER bob", "RNFR f.txt"], "RNTO g2.txt"), (["USER bob"], "PROT P"),
+    (["USER bob"], "CDUP"), (["USER bob"], "SYST"), (["USER bob"], "DELE f.txt"), (["USER bob"], "ABOR"), (["USER bob"], "PBSZ 0"),
+]
+WS_TAILS = [" ", "\t", "  ", " \t ", "\x0c", "\x0b", "\x1c", "\x1f", "\x85", "\u2003", "\u3000", "\r"]
+
+
+def whitespace_family(ctx):
+    """white space between the last character of a command line and its CRLF is not part of the command: the line
+    with it and the line without it are answered alike and leave the session and the tree alike"""
+    res = Result()
+    jobs, meta = [], []
+    tails = WS_TAILS if ctx.thorough() else WS_TAILS[:2] + WS_TAILS[4:5] + WS_TAILS[9:10]
+    for prefix, cmd in WS_BASES:
+        for t in tails:
+            for c in (cmd, cmd + t):
+                jobs.append((S.USERS_ANON, S.TREE, to_events(prefix + [c, "PWD"]), "memory", None, socket.AF_INET))
+            meta.append((prefix, cmd, t))
+    outs = S.run_many(jobs)
+    for i, (prefix, cmd, t) in enumerate(meta):
+        plain, spaced = outs[2 * i], outs[2 * i + 1]
+        res.cases += 1
+        res.count("trailing_white_space")
+        inp = {"kind": "trailing-white-space", "commands": prefix + [cmd + t, "PWD"]}
+        if isinstance(plain, str) or isinstance(spaced, str):
+            res.disagreements.append({"correspondence": "C05 white-space harness", "input": inp, "impl": plain if isinstance(plain, str) else spaced})
+            continue
+        res.distinct.add(("ws", tuple(prefix), cmd, t))
+        if plain != spaced:
+            k = next((j for j, (x, y) in enumerate(zip(plain, spaced)) if x != y), min(len(plain), len(spaced)))
+            x, y = (plain[k] if k < len(plain) else None), (spaced[k] if k < len(spaced) else None)
+            diff = sorted(f for f in set(x or {}) | set(y or {}) if (x or {}).get(f) != (y or {}).get(f))
+            res.oracle_failures.append({"input": inp, "what": "%r with %r before CRLF: %s; without it: %s" % (
+                cmd, t, {f: (y or {}).get(f) for f in diff}, {f: (x or {}).get(f) for f in diff}), "signature": "C05:trailing-white-space-changes-the-command"})
+    return res
+
+
 def correspondence(ctx):
     r = _run(ctx, gen_histories(ctx))
+    r.merge(whitespace_family(ctx))
     r.merge(limits_family(ctx))
     r.merge(pipelined_family(ctx))
     r.merge(fault_family(ctx))
@@ -430,10 +472,18 @@ def search(ctx, prior):
     r.merge(fault_family(ctx))
     r.merge(pipelined_family(ctx))
     r.merge(limits_family(ctx))
+    r.merge(whitespace_family(ctx))
     return r
 
 
 def replay(ctx, doc):
+    if doc["failure"]["input"].get("kind") == "trailing-white-space":
+        cmds = doc["failure"]["input"]["commands"]
+        a = S.run_history(S.USERS_ANON, S.TREE, to_events(cmds))
+        b = S.run_history(S.USERS_ANON, S.TREE, to_events([c.rstrip() for c in cmds]))
+        print("as sent      :", [x and x["replies"] for x in a])
+        print("without space:", [x and x["replies"] for x in b])
+        return a != b
     if doc["failure"]["input"].get("kind") == "user-limit":
         r = limits_family(ctx)
         hit = [f for f in r.oracle_failures if f["input"]["commands"] == doc["failure"]["input"]["commands"]]
